@@ -29,6 +29,9 @@ func C11(r *Run) *core.Report {
 	}
 	c11L1(r, rep)
 	c11L2(r, rep)
+	for _, mm := range r.M.Maps {
+		p11Absence(r, rep, "C11.L2", mm)
+	}
 	c11L2b(r, rep)
 	c11L3(r, rep)
 	c11L4(r, rep)
@@ -36,6 +39,10 @@ func C11(r *Run) *core.Report {
 	n := borrow(rep, mapProtocol(r, "C03", 0), "C11.L5", "C03.P4", "C03.P6", "C03.P7", "C03.P10")
 	n += borrow(rep, mapProtocol(r, "C04", 1), "C11.L5", "C04.P4", "C04.P6", "C04.P7", "C04.P10")
 	rep.MinCount("C11.L5", "premise obligations (resize / Clear integrity, packed-word consistency)", n, 20)
+	// L6: keys that compare equal hash equal under every seed (otherwise what a call finds depends on seed and
+	// table size) - restated from the hasher rules of C10
+	n6 := borrow(rep, C10(r), "C11.L6", "C10.H")
+	rep.MinCount("C11.L6", "premise obligations (hash agrees with ==)", n6, 4)
 	return rep
 }
 
